@@ -425,7 +425,7 @@ func TestC32_Sequential(t *testing.T) {
 		}
 		recordSeq(r, c, st)
 	}
-	evid.Checks(3000)
+	evid.Checks(7500)
 	rapid.Check(t, func(t *rapid.T) {
 		c := genSeq(t)
 		st, sig, err := runSeq(c)
@@ -872,7 +872,7 @@ func TestC32_Concurrent(t *testing.T) {
 	if evid.Thorough() {
 		maxG = 8
 	}
-	evid.Checks(1200)
+	evid.Checks(3000)
 	rapid.Check(t, func(t *rapid.T) {
 		c := genCon(t, maxG)
 		st, sig, err := runCon(c, false)
@@ -893,7 +893,7 @@ func TestC32_Concurrent_Race(t *testing.T) {
 		return
 	}
 	exclude := raceOn && evid.Known(sigReserveRace)
-	evid.Checks(400)
+	evid.Checks(1000)
 	rapid.Check(t, func(t *rapid.T) {
 		c := genCon(t, 8)
 		if exclude {
